@@ -14,7 +14,7 @@ for l in sys.stdin:
         for v in r.get('viol') or []: rules[v['prop']+':'+v['rule']]+=1
         if (r.get('viol') or r.get('panic') or r.get('harness_err')) and shown<int('${SHOW:-4}'):
             shown+=1
-            print(json.dumps({k:r.get(k) for k in ('index','viol','panic','harness_err','sample','skipped')})[:2500])
+            print(json.dumps({k:r.get(k) for k in 'index viol panic harness_err sample skipped'.split()})[:2500])
     elif r.get('type') not in ('begin','done'): print(str(r)[:6000])
 print('runs',n, dict(rules)); print(dict(cnt))
 "
